@@ -61,7 +61,9 @@ def gen_cases(tier, seed):
         for _ in range(150 if thorough else 40):
             t = [rnd.choice(TT) for _ in range(3)]
             cases.append(dict(k=k, ta=t[0], ra=[], tb=t[1], rb=[], tc=t[2], rc=[], pt=rnd.choice(TT), dt=rnd.choice(TT), dr=[]))
+    NQ = [(1, 2, 2, 4), (2, 3, 6, 0), (0, 0, -3, -4), (-1, -2, -2, -4), (2, -4, 5, -6), (0, 0, 0, -3), (3, 0, 0, 0), (1, 1, 1, 1), (-1, 1, -1, -1), (4, -4, 7, 0), (0, 5, 0, -12)]
     for c in cases:
+        c['nq'] = list(rnd.choice(NQ)) if c['k'] == 'SE3' else []
         # the group laws use an operand twice (a a^-1, b (a-b)): beyond TLC's 32-bit headroom for the 401/101 families
         c['laws'] = all((not c[k]) or c[k][-1] <= 13 for k in ('ra', 'rb', 'rc'))
     return cases
